@@ -729,7 +729,13 @@ AofStep(S0, S1, c, a, entries, tm, obs) ==
            indb == IF "aof_no_select" \in Deviations /\ c0db # S0.aof.db
                    THEN {R \in AofApply({[S0.aof EXCEPT !.db = c0db]}, entries, 1, tm, req) : SameData(R.dbs, S1.dbs)} ELSE {}
            queued == IF name = "EXEC" THEN {NameOf(S0.conns[c].queue[i]) : i \in 1..Len(S0.conns[c].queue)} ELSE {}
-           resync == {dn \in DOMAIN AofUnfaithful : dn \in Deviations /\ ({name} \cup queued) \cap AofUnfaithful[dn] # {}}
+           resync0 == {dn \in DOMAIN AofUnfaithful : dn \in Deviations /\ ({name} \cup queued) \cap AofUnfaithful[dn] # {}}
+           (* KNOWN FINDING aof_expiry_unlogged: a key that goes away because its deadline passed leaves no trace in the file (no DEL is
+              written), so a command whose outcome depended on that — SETNX after the expiry, INCR starting over, a list re-created —
+              replays on top of the old value whenever the replay is quicker than the deadline.  Admitted only when the replay state
+              holds an entry whose deadline may have passed by the time of this request. *)
+           expiring == \E d \in DBs : \E k \in DOMAIN S0.aof.dbs[d] : MayGo(S0.aof.dbs[d][k], tm)
+           resync == resync0 \cup (IF "aof_expiry_unlogged" \in Deviations /\ expiring THEN {"aof_expiry_unlogged"} ELSE {})
        IN IF strict # {} THEN {[S |-> [S1 EXCEPT !.aof = R], dv |-> {}] : R \in strict}
           ELSE IF indb # {} THEN {[S |-> [S1 EXCEPT !.aof = [R EXCEPT !.db = S0.aof.db]], dv |-> {"aof_no_select"}] : R \in indb}
           ELSE {[S |-> [S1 EXCEPT !.aof = [dbs |-> S1.dbs, db |-> S0.aof.db, scripts |-> S0.aof.scripts]], dv |-> {dn}] : dn \in resync}
